@@ -12,7 +12,7 @@ from .. import gen, refs, configs, scriptrun as sr, osmt, build, sexpr, outputs
 from ..core import Campaign, CaseResult, Violation, h
 from . import answers
 
-N_QUICK = {"C11": 800, "C12": 600, "C13": 640, "C26": 500}
+N_QUICK = {"C11": 1600, "C12": 1200, "C13": 1280, "C26": 1000}
 N_THOROUGH = {"C11": 16000, "C12": 16000, "C13": 20000, "C26": 16000}
 CORPUS = os.path.join(build.REPO, "test", "regression")
 
